@@ -277,7 +277,18 @@ func dvalASTCorpus() []*dvalCase {
 		}
 		mk("overlap-sweep", &dvalFile{Syntax: syn, Pkg: "p", Msgs: []dvalMsg{{Name: "M",
 			ResRanges: []dvalRange{{10, 20}, {30, 40}, {50, 60}}, ExtRanges: []dvalRange{{20, 30}, {40, 50}, {59, 70}}}}})
-		mk("overlap-sweep-ok", &dvalFile{Syntax: syn, Pkg: "p", Msgs: []dvalMsg{{Name: "M",
+		// overlaps by exactly one number / touching ranges / the same range twice
+		for _, rs := range [][]dvalRange{{{10, 20}, {19, 30}}, {{10, 20}, {20, 30}}, {{19, 30}, {10, 20}}, {{10, 20}, {10, 20}}, {{10, 11}, {10, 30}}, {{10, 30}, {29, 30}}} {
+			mk(fmt.Sprintf("res-adjacent-%v", rs), &dvalFile{Syntax: syn, Pkg: "p", Msgs: []dvalMsg{{Name: "M", ResRanges: rs}}})
+			mk(fmt.Sprintf("ext-adjacent-%v", rs), &dvalFile{Syntax: syn, Pkg: "p", Msgs: []dvalMsg{{Name: "M", ExtRanges: rs}}})
+			mk(fmt.Sprintf("res-ext-adjacent-%v", rs), &dvalFile{Syntax: syn, Pkg: "p", Msgs: []dvalMsg{{Name: "M", ResRanges: rs[:1], ExtRanges: rs[1:]}}})
+			mk(fmt.Sprintf("field-at-edge-%v", rs), &dvalFile{Syntax: syn, Pkg: "p", Msgs: []dvalMsg{{Name: "M", ResRanges: rs[:1],
+				Fields: []dvalField{{Name: "f", Num: rs[0].E, Label: 1, Type: 5}, {Name: "g", Num: rs[0].E - 1, Label: 1, Type: 5}, {Name: "h", Num: rs[0].S - 1, Label: 1, Type: 5}}}}})
+		}
+		for _, rs := range [][]dvalRange{{{1, 5}, {5, 9}}, {{1, 5}, {6, 9}}, {{6, 9}, {1, 5}}, {{1, 5}, {1, 5}}} {
+			mk(fmt.Sprintf("eres-adjacent-%v", rs), &dvalFile{Syntax: syn, Pkg: "p", Enums: []dvalEnum{{Name: "E", Vals: []dvalEVal{{"A", 0, true}}, ResRanges: rs}}})
+		}
+		mk("overlap-sweep-ok",&dvalFile{Syntax: syn, Pkg: "p", Msgs: []dvalMsg{{Name: "M",
 			ResRanges: []dvalRange{{50, 60}, {10, 20}, {30, 40}}, ExtRanges: []dvalRange{{40, 50}, {20, 30}, {60, 70}}}}})
 		// enum corner cases
 		mk("enum-alias", &dvalFile{Syntax: syn, Pkg: "p", Enums: []dvalEnum{{Name: "E", Alias: true, Vals: []dvalEVal{{"A", 0, true}, {"B", 0, true}}}}})
